@@ -15,6 +15,7 @@ import (
 	"fmt"
 	"hash"
 	"io"
+	"runtime"
 	"sync"
 	"sync/atomic"
 	"testing"
@@ -28,6 +29,7 @@ type vFCInner struct {
 	reached atomic.Int64
 	mu      sync.Mutex
 	names   []string
+	hold    chan struct{} // if non-nil: non-lock operations block here inside the inner backend
 }
 
 func (m *vFCInner) note(kind string, h backend.Handle) {
@@ -37,14 +39,23 @@ func (m *vFCInner) note(kind string, h backend.Handle) {
 	m.reached.Add(1)
 	m.mu.Lock()
 	m.names = append(m.names, kind+" "+h.String())
+	hold := m.hold
 	m.mu.Unlock()
+	if hold != nil {
+		<-hold
+	}
 }
-func (m *vFCInner) Properties() backend.Properties { return backend.Properties{Connections: m.conns} }
-func (m *vFCInner) Hasher() hash.Hash               { return nil }
-func (m *vFCInner) Close() error                    { return nil }
-func (m *vFCInner) Delete(context.Context) error    { return nil }
-func (m *vFCInner) IsNotExist(error) bool           { return false }
-func (m *vFCInner) IsPermanentError(error) bool     { return false }
+func (m *vFCInner) snapshotNames() []string {
+	m.mu.Lock()
+	defer m.mu.Unlock()
+	return append([]string(nil), m.names...)
+}
+func (m *vFCInner) Properties() backend.Properties                     { return backend.Properties{Connections: m.conns} }
+func (m *vFCInner) Hasher() hash.Hash                                  { return nil }
+func (m *vFCInner) Close() error                                       { return nil }
+func (m *vFCInner) Delete(context.Context) error                       { return nil }
+func (m *vFCInner) IsNotExist(error) bool                              { return false }
+func (m *vFCInner) IsPermanentError(error) bool                        { return false }
 func (m *vFCInner) WarmupWait(context.Context, []backend.Handle) error { return nil }
 func (m *vFCInner) Warmup(context.Context, []backend.Handle) ([]backend.Handle, error) {
 	return nil, nil
@@ -127,6 +138,58 @@ func TestVerifC13FrozenCancel(t *testing.T) {
 		}
 		if nonCtxErr.Load() != 0 {
 			rec.Violation("modification-after-lock-loss", fmt.Sprintf("%d operations issued during the freeze returned success after the context was cancelled", nonCtxErr.Load()), desc)
+		}
+		// ---- second scenario (seeded change C13-2): every connection slot is held by an operation
+		// inside the backend, further operations are queued for a slot; then the forced refresh
+		// freezes the backend, the slot holders finish DURING the freeze, the refresh fails, the
+		// context is cancelled and the backend unfrozen. None of the queued operations may reach the
+		// inner backend: not during the freeze and not afterwards.
+		{
+			inner2 := &vFCInner{conns: conns, hold: make(chan struct{})}
+			be2 := NewBackend(inner2)
+			fb2 := be2.(backend.FreezeBackend)
+			ctx2, cancel2 := context.WithCancel(context.Background())
+			var wg2 sync.WaitGroup
+			issue := func(k int) {
+				h := backend.Handle{Type: kit.Pick(rng, types), Name: fmt.Sprintf("%064x", 1000+k)}
+				wg2.Add(1)
+				go func() {
+					defer wg2.Done()
+					_, _ = be2.Stat(ctx2, h)
+				}()
+			}
+			for k := 0; k < int(conns); k++ {
+				issue(k)
+			}
+			for inner2.reached.Load() < int64(conns) { // all slots taken inside the backend
+				runtime.Gosched()
+			}
+			queued := rng.Range(1, 6)
+			for k := 0; k < queued; k++ {
+				issue(100 + k)
+			}
+			for i := 0; i < 200; i++ { // let the queued operations reach their waiting point (detection power only)
+				runtime.Gosched()
+			}
+			fb2.Freeze()
+			inner2.mu.Lock()
+			hold := inner2.hold
+			inner2.hold = nil
+			inner2.mu.Unlock()
+			close(hold) // the slot holders finish while the backend is frozen
+			for i := 0; i < 200; i++ {
+				runtime.Gosched()
+			}
+			if r := inner2.reached.Load(); r != int64(conns) {
+				rec.Violation("started-while-frozen", fmt.Sprintf("%d operations that were queued for a connection slot reached the inner backend while it was frozen (slots %d, queued %d): %v", r-int64(conns), conns, queued, inner2.snapshotNames()), desc)
+			}
+			cancel2()
+			fb2.Unfreeze()
+			wg2.Wait()
+			if r := inner2.reached.Load(); r != int64(conns) {
+				rec.Violation("modification-after-lock-loss", fmt.Sprintf("%d queued operations reached the inner backend after the context was cancelled during the freeze (slots %d, queued %d)", r-int64(conns), conns, queued), desc)
+			}
+			rec.Count("operations_queued_before_freeze", int64(queued))
 		}
 		rec.Case(fmt.Sprintf("frozencancel/%d/%d", conns, nops), true)
 		rec.Count("operations_issued_while_frozen", int64(nops))
